@@ -356,6 +356,8 @@ def dump(dbs, f, **options):
     # type: (typing.Mapping[str, canmatrix.CanMatrix], typing.IO, **str) -> None
     ar_version = options.get("arVersion", "4.1.0")
 
+    # work on a copy: the receiver propagation below must not change the caller's matrices
+    dbs = copy.deepcopy(dbs)
     for name in dbs:
         db = dbs[name]
         for frame in db.frames:
